@@ -13,7 +13,7 @@ CLAIMED = {
         note="Trusted: TLC, the abstraction function harness/uni (constructors/accessors only), universe/store.json. Single goroutine."),
     "C02": dict(
         cat="model_checking", ref="DESIGN 5/C02",
-        technique="TLA+ Lookups.tla comprehensions as oracle; all ten lookups x all argument combinations issued at every newly visited state of the TLC-generated tour and validated by TLC trace checking; looked-up-only predicates anchored 2^64 ns after a stored one and at the zero time",
+        technique="TLA+ Lookups.tla comprehensions as oracle; all ten lookups x all argument combinations issued at every newly visited state of the TLC-generated tour and validated by TLC trace checking; looked-up-only predicates anchored 2^64 ns after a stored one and at the zero time; the store driver is built without the index hook when storage/memory/verif_dump.go does not compile against the tree (lookups vs scans only); a predicate whose identifier spells a node",
         text="At every state of the tour (each reached through many histories) and at sampled revisits all ten indexed lookups and Triples are called with every combination of subject/predicate/object from the universe (stored or not, other kind, other instant, other zone) and TLC compares each result bag with the set comprehension over the model content.",
         note="Trusted: TLC, harness/uni, universe/store.json. Results outside the universe are mapped to id 0 and rejected."),
     "C09": dict(
@@ -28,27 +28,27 @@ CLAIMED = {
         note="Trusted: TLC, lib/bqlgen.py rendering (cross-checked against the parsed pattern dumped by the driver), harness/bqlu projection by accessors. Random generation seeded by VERIF_SEED, not exhaustive."),
     "C10": dict(
         cat="model_checking", ref="DESIGN 5/C10",
-        technique="same oracle (BQLSemantics.tla Step with OPTIONAL as left outer join) on generated patterns with 1-2 OPTIONAL clauses in any position after the first; TLC trace validation; plus table level: LeftOptionalJoin / DotProduct / AppendTable / ProjectBindings performed on real bql/table tables by tabledrv and validated by TLC against TableAlg.tla (TableTrace.tla); lemma JoinKeepsLeft model-checked (TableAlgMC)",
+        technique="same oracle (BQLSemantics.tla Step with OPTIONAL as left outer join) on generated patterns with 1-2 OPTIONAL clauses in any position after the first; TLC trace validation; plus table level: LeftOptionalJoin / DotProduct / AppendTable / ProjectBindings performed on real bql/table tables by tabledrv and validated by TLC against TableAlg.tla (TableTrace.tla); lemma JoinKeepsLeft model-checked (TableAlgMC); chained OPTIONAL clauses (join value NULL) judged for kept rows by BQLSemantics!LeftKeptDev; OPTIONAL clauses meeting tables of 500-1200 rows with a shared column of mixed kinds",
         text="Generated patterns mandatory;OPTIONAL[;OPTIONAL] with the optional clause sharing 0..n bindings, fully specified with/without alias, matching nothing/some/all rows, extractions that cannot apply; TLC checks that every preceding solution appears once per compatible match or once NULL-extended.",
-        note="Patterns where an OPTIONAL clause shares a binding only introduced by an earlier OPTIONAL clause are counted as open, not judged."),
+        note="Patterns where an OPTIONAL clause shares a binding only introduced by an earlier OPTIONAL clause: the rows are open (NULL-vs-value compatibility is not defined); that no row of the pattern before them is removed is judged."),
     "C11": dict(
         cat="model_checking", ref="DESIGN 5/C11",
-        technique="TLA+ Group/AggRow operators (BQLSemantics.tla) applied by TLC to the RECORDED ungrouped rows of the same pattern and compared with the recorded grouped rows; plus table level: Table.Reduce with count / count distinct / sum accumulators on real tables validated by TLC against TableAlg.tla IsReduce; GROUP BY without aggregates; sums of int64 beyond 2^53 through additive stand-ins",
+        technique="TLA+ Group/AggRow operators (BQLSemantics.tla) applied by TLC to the RECORDED ungrouped rows of the same pattern and compared with the recorded grouped rows; plus table level: Table.Reduce with count / count distinct / sum accumulators on real tables validated by TLC against TableAlg.tla IsReduce; GROUP BY without aggregates; sums of int64 beyond 2^53 through additive stand-ins; grouping columns shown under the name of a binding the same query aggregates",
         text="For generated patterns and every choice of 1-2 grouping bindings and 1-3 aggregates (count, count distinct, sum) the grouped query and its ungrouped base are both executed; TLC requires exactly one row per distinct key combination (mixed kinds in key columns included) with the right count / distinct count / sum, and an empty result for an empty base.",
         note="Sums are judged only for columns of one numeric kind (quarters, |v|<2^30: TLC has 32-bit integers and no floats)."),
     "C12": dict(
         cat="model_checking", ref="DESIGN 5/C12",
-        technique="TLA+ Sorted/Permutation/TopN operators evaluated by TLC on recorded plain, ordered and limited results of the same query; rank tables of printed forms and instants computed independently in lib/bqlu.py; plus table level: Table.Sort and Table.Limit on real tables validated by TLC against TableAlg.tla (IsSort, Limit); LimitLemmas / SortKeyLemma model-checked",
+        technique="TLA+ Sorted/Permutation/TopN operators evaluated by TLC on recorded plain, ordered and limited results of the same query; rank tables of printed forms and instants computed independently in lib/bqlu.py; plus table level: Table.Sort and Table.Limit on real tables validated by TLC against TableAlg.tla (IsSort, Limit); LimitLemmas / SortKeyLemma model-checked; ORDER BY a prefix of the grouping keys in GROUP BY order and in SELECT order",
         text="Generated queries (incl. GROUP BY outputs) are run plain, with ORDER BY (1-3 keys, ASC/DESC, repeated keys) twice, and with LIMIT 0..50; TLC checks permutation, sortedness by kind (numeric, chronological incl. other zones and sub-second precision, printed form), first-min(n,N)-rows, determinism for total orders; statements with a negative / non-int64 LIMIT must be rejected.",
         note="Key columns holding several kinds are not judged. Literal type names in upper case are left to C08/C16."),
     "C13": dict(
         cat="model_checking", ref="DESIGN 5/C13",
-        technique="TLA+ Eval over the grammar's own expression tree (BQLSemantics.tla) applied by TLC to the recorded rows without HAVING and compared with the recorded rows with it; plus table level: Table.Filter on real tables validated by TLC against TableAlg.tla; FilterLemmas model-checked; HAVING on tables of more than a thousand rows; output names that shadow pattern bindings",
+        technique="TLA+ Eval over the grammar's own expression tree (BQLSemantics.tla) applied by TLC to the recorded rows without HAVING and compared with the recorded rows with it; plus table level: Table.Filter on real tables validated by TLC against TableAlg.tla; FilterLemmas model-checked; HAVING on tables of more than a thousand rows; output names that shadow pattern bindings; grouped HAVING on a grouping column shown under the name of another pattern binding",
         text="Random expression trees (NOT / AND / OR / parentheses, depth <= 3) over comparisons of bindings with int64, float64, text, bool, node, predicate, time constants (other zones) and other bindings, also over aggregate outputs; TLC requires exactly the rows for which the expression is true, unchanged.",
         note="< and > on nodes/predicates/bools, and binding-vs-binding of different kinds, are not judged; statements rejected by the parser/expression builder are not judged."),
     "C14": dict(
         cat="model_checking", ref="DESIGN 5/C14",
-        technique="metamorphic relations asserted by TLC (bag equality / inclusion / identical sequence) between REAL results of variants of one query: renaming, clause permutation, data partition over 1-3 graphs, supersets of the data, chanSize/bulkSize/GOMAXPROCS, repetition; a third of the base queries from the pattern families of C03",
+        technique="metamorphic relations asserted by TLC (bag equality / inclusion / identical sequence) between REAL results of variants of one query: renaming, clause permutation, data partition over 1-3 graphs, supersets of the data, chanSize/bulkSize/GOMAXPROCS, repetition; a third of the base queries from the pattern families of C03; renaming through the SELECT list; ORDER BY one column judged as a total order when the recorded values of the column are all different (int64 beyond 2^53 included)",
         text="For each generated base query ~10 variants are executed and TLC checks the relation the property states; no reference to the solutions oracle, so C03 findings cannot leak in unless they are order- or configuration-dependent.",
         note="Base queries come from the fragment without OPTIONAL/FILTER/LIMIT/aggregates."),
     "C04": dict(
@@ -61,7 +61,7 @@ CLAIMED = {
         text="All table facts (first elements are tokens and pairwise distinct per rule, empty alternative last, referenced rules exist, reachable, productive by least fixpoint, plain = semantic table) are checked for the whole table of the current tree (73 rules / 178 alternatives). For every expansion step of the derivation machine (stack <= 20/26, both alternative orders) a sentence is concretised, lexed and parsed by the real parser; TLC requires accept = Accepts(kinds) and the probed (rule, alternative) sequence = the alternatives LL1!Run takes; every alternative (also the empty ones) must be taken by an accepted run. Complete for the table; witnesses bounded by the stack bound.",
         note="Trusted: TLC, grammardump (exported accessors; element is a token iff Symbol()==''), harness/gram concretiser (only proposes texts; judged on kinds as lexed; a token kind it cannot write raises INFRA, not a verdict)."),
     "C18": dict(cat="model_checking", ref="DESIGN 5/C18",
-        technique="LL1.tla predictive recogniser (Accepts) on the generated table as oracle; TLC-generated sentences, systematic (expected token x offered kind) substitutions, mutations, trailing tokens and all kind sequences <= 3 parsed by the real plain and semantic parsers; histories (every cut position x probes, random) on one parser vs a fresh one; all events validated by TLC (ParserTrace.tla); deviations attributed by rebuilding hook closures on the real code; long histories (tens of thousands of mostly rejected statements on ONE parser, probes in between); statements a semantic hook rejects in the middle of its work (unknown key appended to ORDER BY) followed by the same statement with the direction of its first key turned round",
+        technique="LL1.tla predictive recogniser (Accepts) on the generated table as oracle; TLC-generated sentences, systematic (expected token x offered kind) substitutions, mutations, trailing tokens and all kind sequences <= 3 parsed by the real plain and semantic parsers; histories (every cut position x probes, random) on one parser vs a fresh one; all events validated by TLC (ParserTrace.tla); deviations attributed by rebuilding hook closures on the real code; long histories (tens of thousands of mostly rejected statements on ONE parser, probes in between); statements a semantic hook rejects in the middle of its work (unknown key appended to ORDER BY) followed by the same statement with the direction of its first key turned round; histories whose Statements are dropped, collected, and the next one placed in the freed memory",
         text="plain accept = Accepts(kinds as lexed) and semantic accept => Accepts for sentences, 10^4 substitutions/mutations, statements followed by more tokens and all token-kind sequences up to length 3 (quick: length 2 + 2% sample); the outcome and extracted meaning (type, graphs, data, clauses, filters, projections, group/order, HAVING tokens, bounds, limit, construct clauses) of a probe statement after every history (40/160 statements cut at every token, whole, random histories <= 6) equals its meaning on a fresh parser.",
         note="Deviations are classified mechanically: AcceptsPrefix evaluated by TLC; closure family found by delta debugging on the real hooks. Probes whose fresh meaning is not deterministic are open. Trusted: TLC, harness/gram, meaning projection in parsedrv."),
     "C16": dict(cat="model_checking", ref="DESIGN 5/C16",
@@ -73,11 +73,11 @@ CLAIMED = {
         text="Every run must end in exactly one of table / error, never panic, time out (10 s watchdog, re-run alone) or kill the process, and leave no goroutine with engine frames. 1.5*10^4 (quick) / 3.3*10^5 (thorough) texts: grammar-generated statements with plain and hostile literals/nodes/predicates/bounds/times (one hostile token at a time and random), prefixes, prefix + one token, token mutations, statement + statement, all kind sequences up to length 3 (quick: 2% sample), random bytes and byte mutations, against a populated and an empty memory store.",
         note="Level model_checking for the pipeline model and trace validation, exploration for raw bytes (evidence carries both key sets). The two panics first found here (blob literal shorter than 2 chars, anchor of one double quote) were repaired in the value parsers (fixed: entries). Driver failures are C20."),
     "C19": dict(cat="model_checking", ref="DESIGN 5/C19",
-        technique="TLA+ Memo.tla (per-graph cache, key incl. offset, CheckCache ; Replay | Forward ; Fill, Clear ; ForwardWrite) model-checked by TLC for Transparent and used to enumerate ALL schedules of 1 writer + 1-2 readers; every schedule forced on the real memoizer through verifYield gates (build tag verif) and the recorded invoke/return history validated by TLC (MemoTrace.tla) against the wrapped store's own answers; plus lock-step sequential histories and a cache-key sweep; the key sweep includes windows whose bounds differ from an anchor by less than a second; one options value whose fields are re-pointed between lookups",
+        technique="TLA+ Memo.tla (per-graph cache, key incl. offset, CheckCache ; Replay | Forward ; Fill, Clear ; ForwardWrite) model-checked by TLC for Transparent and used to enumerate ALL schedules of 1 writer + 1-2 readers; every schedule forced on the real memoizer through verifYield gates (build tag verif) and the recorded invoke/return history validated by TLC (MemoTrace.tla) against the wrapped store's own answers; plus lock-step sequential histories and a cache-key sweep; the key sweep includes windows whose bounds differ from an anchor by less than a second; one options value whose fields are re-pointed between lookups; LatestAnchor combined with every upper bound in the cache-key grid",
         text="(i) sequential lock-step histories (memoized store vs plain twin) over all lookup methods, option shapes incl. window/filter/LatestAnchor/MaxElements/Offset, Exist, Triples, two handles of one graph, failing forwarded reads; (ii) every schedule TLC enumerates at the grain CheckCache/Forward/Fill/Clear/ForwardWrite/Return for 1 writer and 1-2 readers (same/different key, same/second handle) is forced on the real code; (iii) key sweep: pairs of requests differing in exactly one argument or option must not share a cached answer. TLC requires every answer to equal the wrapped graph's answer at an instant inside the call and never one older than the last returned write. Exhaustive over the schedules of the bounded model, sampled for sequential histories.",
         note="Needs the verifYield hook (storage/memoization/verif_on.go). Each named deviation of Memo.tla (offset not in key, per-handle cache, fill after clear, memoized failed read) is model-checked to violate Transparent as a non-vacuity control. Trusted: TLC, harness/uni, the gate scheduler of memodrv."),
     "C07": dict(cat="model_checking", ref="DESIGN 5/C07",
-        technique="TLA+ ConcStore.tla (Go RW-mutex with writer preference, batch-atomic add, per-triple remove, streaming lookups under the read lock, store-level lock) model-checked by TLC for refinement to the sequential store, dead-lock freedom and close-exactly-once; invoke/return histories recorded from the real store built with -race are validated by TLC (ConcTrace.tla places the silent linearisation steps; a history is rejected iff no placement explains the results); race-detector reports, panics, watchdog, channel-close counters and options observers are events the spec has no action for; a driver process killed by a goroutine of the engine, and a statement the parser rejects only when parsed concurrently, are observations",
+        technique="TLA+ ConcStore.tla (Go RW-mutex with writer preference, batch-atomic add, per-triple remove, streaming lookups under the read lock, store-level lock) model-checked by TLC for refinement to the sequential store, dead-lock freedom and close-exactly-once; invoke/return histories recorded from the real store built with -race are validated by TLC (ConcTrace.tla places the silent linearisation steps; a history is rejected iff no placement explains the results); race-detector reports, panics, watchdog, channel-close counters and options observers are events the spec has no action for; a driver process killed by a goroutine of the engine, and a statement the parser rejects only when parsed concurrently, are observations; stress runs through handles of a graph that is dropped and created again meanwhile",
         text="All interleavings of 2 processes x <=2 operations and 3 processes x 1 operation over 3 triples / 2 graph names in the model; on the real code: many small random histories (<=4 goroutines x <=4 ops: add/remove batches, Exist, all lookups with options, create/get/drop graphs) checked for linearisability by TLC, targeted schedules derived from model counterexamples (lookup parked on an undrained channel while another call runs; batch atomicity), long hammer/stress runs under the race detector with close-exactly-once and options-untouched observers and a dead-lock watchdog.",
         note="Data-race freedom is the Go race detector's judgement on the executions run, not TLC's. Clients drain result channels. Real-time order from a global atomic counter read before each call and after its return."),
     "C20": dict(cat="model_checking", ref="DESIGN 5/C20",
